@@ -31,6 +31,7 @@ FIXES = [
  ('C02','also ignores decorations requested inside','options/set.rs: with --color-only, `box`/`underline`/`overline` inside commit/file/hunk-header style strings still drew decorations (three output lines for one input line)'),
  ('C02','keeps the commit line also with --commit-style omit','commit_meta.rs: --color-only --commit-style omit dropped the commit line (13 input lines -> 12 output lines)'),
  ('C02','color-only from gitconfig disables the side-by-side feature','options/set.rs: `color-only = true` in gitconfig plus side-by-side left the side-by-side feature enabled, adding a line-number gutter to every hunk line'),
+ ('C04','not emptied when the maximum line length is 0','delta.rs: with max-line-length 0 (also set by side-by-side + --wrap-max-lines=unlimited) a line containing invalid UTF-8 was replaced by an empty line'),
 ]
 out = []
 for prop, pat, what in FIXES:
